@@ -147,6 +147,19 @@ CORPUS = [
          old2="\t\treturn x, lz4errors.ErrOptionInvalidBlockSize", new2="\t\treturn 0, lz4errors.ErrOptionInvalidBlockSize"),
     dict(name="C09-legacy-option-keeps-legacy-block-size", kind="break", props=["C09", "C17"], file="options.go",
          old="\t\t\tif !legacy && !rw.frame.Descriptor.Flags.BlockSizeIndex().IsValid() {", new="\t\t\tif false && !legacy && !rw.frame.Descriptor.Flags.BlockSizeIndex().IsValid() {"),
+    # ---- behaviour-preserving edits of functions under contract (must not alarm) ----
+    dict(name="C17-benign-reader-init-reordered", kind="benign", props=["C17", "C02"], file="reader.go",
+         old="\tr.reads = data\n\tr.idx = 0\n\tsize := r.frame.Descriptor.Flags.BlockSizeIndex()\n\tr.data = size.Get()\n\tr.cum = 0\n",
+         new="\tr.cum = 0\n\tr.idx = 0\n\tr.reads = data\n\tsize := r.frame.Descriptor.Flags.BlockSizeIndex()\n\tr.data = size.Get()\n"),
+    dict(name="C17-benign-writer-init-reordered", kind="benign", props=["C17", "C09"], file="writer.go",
+         old="\tsize := w.frame.Descriptor.Flags.BlockSizeIndex()\n\tw.data = size.Get()\n\tw.idx = 0\n\treturn w.frame.Descriptor.Write(w.frame, w.src)",
+         new="\tw.idx = 0\n\tw.data = w.frame.Descriptor.Flags.BlockSizeIndex().Get()\n\treturn w.frame.Descriptor.Write(w.frame, w.src)"),
+    dict(name="C05-benign-endmark-test-flipped", kind="benign", props=["C05", "C06"], file="internal/lz4stream/block.go",
+         old="\t} else if x == 0 {\n\t\t// Marker for end of stream.", new="\t} else if 0 == x {\n\t\t// Marker for end of stream."),
+    dict(name="C03-benign-decoder-increment-style", kind="benign", props=["C03", "C04"], file="internal/lz4block/decode_other.go",
+         old="\t\tb := uint(src[si])\n\t\tsi++\n", new="\t\tb := uint(src[si])\n\t\tsi += 1\n"),
+    dict(name="C13-benign-sum32-early-variable", kind="benign", props=["C13"], file="internal/xxh32/xxh32zero.go",
+         old="\tp := 0\n\tn := xxh.bufused\n\tbuf := xxh.buf\n", new="\tn := xxh.bufused\n\tbuf := xxh.buf\n\tp := 0\n"),
     # ---- renamed locals (the `locals` line of the contract maps the old names by position) ----
     dict(name="C10-benign-rename-anchor", kind="benign", props=["C10"], file="internal/lz4block/block.go",
          regex=r"\banchor\b", new="anch"),
